@@ -83,6 +83,9 @@ type CheckCtx struct {
 }
 
 func evSignature(ev M) string {
+	if ev["ev"] == "crash" || ev["ev"] == "fault" || ev["ev"] == "damage" {
+		return fmt.Sprintf("%v", ev)
+	}
 	a, ok := Argv(ev)
 	if ok {
 		return strings.Join(a, "\x00")
@@ -223,6 +226,84 @@ type ReplayFile struct {
 	Extra    M                 `json:"extra,omitempty"`
 }
 
+func (v *Violation) isFS() bool {
+	if v.Trace == nil {
+		return false
+	}
+	e := v.Trace.Events[v.EvIdx]["ev"]
+	return e == "crash" || e == "fault"
+}
+
+// fsSignature identifies a crash point / fault position by what is stable across runs.
+func fsSignature(l M) string {
+	if l["ev"] == "crash" {
+		return fmt.Sprintf("crash|%v/%v>%v/%v", l["last"].(M)["kind"], l["last"].(M)["fclass"], l["next"].(M)["kind"], l["next"].(M)["fclass"])
+	}
+	if f, ok := l["fault"].(M); ok {
+		return fmt.Sprintf("fault|%v/%v/%v", f["kind"], f["fclass"], f["errno"])
+	}
+	return ""
+}
+
+func (v *Violation) replayFileFS() *ReplayFile {
+	rf := &ReplayFile{Property: v.Prop, Clause: v.Clause, TZ0: v.Trace.TZ0, Obs: roObs, Contents: map[string]string{}, Kind: "fs"}
+	fe := v.Trace.Events[v.EvIdx]
+	at := toInt(fe["at"])
+	n := -1
+	for _, ev := range v.Trace.Events {
+		if ev["ev"] == "crash" || ev["ev"] == "fault" {
+			continue
+		}
+		n++
+		if n > at {
+			break
+		}
+		rf.Events = append(rf.Events, ev)
+		rf.Commands = append(rf.Commands, describeEv(ev))
+		if c, ok := ev["c"].(string); ok {
+			if b, ok := v.Trace.Contents[c]; ok {
+				rf.Contents[c] = base64.StdEncoding.EncodeToString(b)
+			}
+		}
+	}
+	l := v.Chunk.Lines[v.Line-1]
+	rf.Extra = M{"mode": fe["ev"], "signature": fsSignature(l), "position": fe}
+	if fe["ev"] == "crash" {
+		rf.Note = fmt.Sprintf("kill the last command after its %v-th file-system modification (last op %v %v, next op %v %v): clause %s fails on the resulting state", fe["k"], l["last"].(M)["kind"], l["last"].(M)["name"], l["next"].(M)["kind"], l["next"].(M)["name"], v.Clause)
+	} else {
+		rf.Note = fmt.Sprintf("make %v #%v (%v) of the last command fail with %v: clause %s fails", fe["sys"], fe["ord"], fe["path"], fe["errno"], v.Clause)
+	}
+	return rf
+}
+
+// reexecFS re-enumerates the positions of the last command of a replay file and reports whether the clause fails
+// again at a position with the same signature.
+func reexecFS(goit string, rf *ReplayFile, dir string) (bool, error) {
+	c := NewChunk(dir)
+	contents := map[string][]byte{}
+	for k, v := range rf.Contents {
+		b, _ := base64.StdEncoding.DecodeString(v)
+		contents[k] = b
+	}
+	mode := FSMode{Crash: rf.Extra["mode"] == "crash", Fault: rf.Extra["mode"] == "fault", Errnos: thoroughErrnos, OnlyAt: len(rf.Events)}
+	st := &fsStats{ByCmd: map[string]int{}}
+	var infra []string
+	fsEnumerate(goit, c, rf.Events, contents, rf.TZ0, mode, rand.New(rand.NewSource(1)), "replay", st, &infra)
+	if len(infra) > 0 {
+		return false, fmt.Errorf("%s", strings.Join(infra, "; "))
+	}
+	jr := c.Judge("GoitTrace", 10*time.Minute)
+	if jr.Err != nil {
+		return false, jr.Err
+	}
+	for _, f := range jr.Fails {
+		if f.Clause == rf.Clause && fsSignature(c.Lines[f.Line-1]) == rf.Extra["signature"] {
+			return true, nil
+		}
+	}
+	return false, nil
+}
+
 func (v *Violation) replayFile() *ReplayFile {
 	rf := &ReplayFile{Property: v.Prop, Clause: v.Clause, TZ0: v.Trace.TZ0, Obs: v.Trace.ObsSpec, Contents: map[string]string{}, Kind: "functional"}
 	rf.Events = v.Trace.Events[:v.EvIdx+1]
@@ -337,12 +418,50 @@ func (cx *CheckCtx) finish(level string, rule string, assumptions []string) int 
 			unexplained = append(unexplained, v)
 		}
 	}
+	if os.Getenv("VERIF_DEBUG") != "" {
+		cnt := map[string]int{}
+		ex := map[string]string{}
+		for _, v := range cx.Viol {
+			k := v.Clause + " kf=" + strings.Join(v.KF, ",")
+			if v.Trace != nil {
+				ev := v.Trace.Events[v.EvIdx]
+				k += " ev=" + fmt.Sprint(ev["ev"])
+				if ev["ev"] == "crash" || ev["ev"] == "fault" {
+					l := v.Chunk.Lines[v.Line-1]
+					if ev["ev"] == "crash" {
+						k += fmt.Sprintf(" cmd=%v last=%v/%v next=%v/%v", l["cmd"].(M)["ev"], l["last"].(M)["kind"], l["last"].(M)["fclass"], l["next"].(M)["kind"], l["next"].(M)["fclass"])
+					} else {
+						k += fmt.Sprintf(" cmd=%v fault=%v/%v/%v res=%v", l["ev"], l["fault"].(M)["kind"], l["fault"].(M)["fclass"], l["fault"].(M)["errno"], l["res"])
+					}
+				}
+			}
+			cnt[k]++
+			if ex[k] == "" {
+				ex[k] = v.Describe
+			}
+		}
+		var ks []string
+		for k := range cnt {
+			ks = append(ks, k)
+		}
+		sort.Strings(ks)
+		for _, k := range ks {
+			fmt.Fprintf(os.Stderr, "DEBUG %5d  %s   e.g. %s\n", cnt[k], k, ex[k])
+		}
+	}
 	// group unexplained by (clause, event kind), confirm a few of each by re-execution
 	groups := map[string][]*Violation{}
 	var gkeys []string
 	for _, v := range unexplained {
 		k := v.Clause
-		if v.Trace != nil {
+		if v.isFS() {
+			l := v.Chunk.Lines[v.Line-1]
+			cmd := l["ev"]
+			if m, ok := l["cmd"].(M); ok {
+				cmd = m["ev"]
+			}
+			k += "|" + fmt.Sprint(cmd) + "|" + fsSignature(l)
+		} else if v.Trace != nil {
 			k += "|" + fmt.Sprint(v.Trace.Events[v.EvIdx]["ev"])
 		}
 		if _, ok := groups[k]; !ok {
@@ -364,7 +483,7 @@ func (cx *CheckCtx) finish(level string, rule string, assumptions []string) int 
 		vs := groups[k]
 		clause := strings.SplitN(k, "|", 2)[0]
 		perClause[clause]++
-		if perClause[clause] > 4 {
+		if perClause[clause] > 4 && !vs[0].isFS() {
 			continue // same clause already being confirmed on four other kinds of command
 		}
 		sort.Slice(vs, func(i, j int) bool { return vs[i].EvIdx < vs[j].EvIdx })
@@ -378,8 +497,16 @@ func (cx *CheckCtx) finish(level string, rule string, assumptions []string) int 
 				if v.Trace == nil {
 					continue
 				}
-				rf := v.replayFile()
-				again, _, err := reexec(cx.Goit, rf, filepath.Join(cx.Scratch, fmt.Sprintf("confirm%d_%d", gi, try)))
+				var rf *ReplayFile
+				var again bool
+				var err error
+				if v.isFS() {
+					rf = v.replayFileFS()
+					again, err = reexecFS(cx.Goit, rf, filepath.Join(cx.Scratch, fmt.Sprintf("confirm%d_%d", gi, try)))
+				} else {
+					rf = v.replayFile()
+					again, _, err = reexec(cx.Goit, rf, filepath.Join(cx.Scratch, fmt.Sprintf("confirm%d_%d", gi, try)))
+				}
 				cmu.Lock()
 				if err != nil {
 					cx.InfraErr = append(cx.InfraErr, "replay: "+err.Error())
